@@ -1,6 +1,9 @@
 import CgtModel.Report
 import CgtModel.Spec
 import CgtModel.Lemmas.Conserve
+import CgtModel.Lemmas.LegWindow
+import CgtModel.Lemmas.Sorted
+import CgtModel.Props.C02
 /-! # C01 — Same Day, then 30-day (earliest first), then Section 104
 
 Full statement: for every accepted ledger, rule / quantity / acquisition date of every leg (and costs,
@@ -254,5 +257,35 @@ def legRules (r : Except MErr (Option Pool × List Leg)) : List (Rule × Rat) :=
 
 example : legRules (runTicker "A" 30 exDays) =
     [(.bedAndBreakfast, 30), (.section104, 70), (.section104, 100), (.sameDay, 50)] := by decide +kernel
+
+/-! ### the window, for every ledger -/
+
+theorem setOffsets_strict (f : Day → Rat) (ds : List Day) (h : ds.Pairwise (fun a b => a.ord < b.ord)) :
+    (C02.setOffsets f ds).Pairwise (fun a b => a.ord < b.ord) := by
+  unfold C02.setOffsets
+  rw [List.pairwise_map]
+  exact h
+
+/-- **C01, window and rule ↔ acquisition date, from the raw ledger**: for every ledger the matcher
+    accepts (no hypothesis at all on the input), every leg of every security is dated by one of that
+    security's days; a Same-Day leg is identified with that very day, a 30-day leg with a day
+    strictly later and at most 30 days on (D+30 inside, D+31 and D itself outside), a Section 104 leg
+    with no acquisition day -/
+theorem C01_legs_in_window (l : List Tx) (rs : List TickerResult) (h : run bnbWindowDays l = .ok rs) :
+    ∀ r ∈ rs, ∀ x ∈ r.legs, ∃ d ∈ daysOf r.ticker (preprocess l), LegWin 30 d.date x := by
+  intro r hr x hx
+  have hrun := C02.run_result bnbWindowDays l rs h r hr
+  unfold runTicker at hrun
+  split at hrun
+  · cases hrun
+  · rename_i ds' hw
+    obtain ⟨f, rfl⟩ := C02.withOffsets_shape r.ticker _ ds' hw
+    have hs := setOffsets_strict f _ (daysOf_strict l r.ticker)
+    obtain ⟨d, hd, hwin⟩ := runDays_legwin r.ticker bnbWindowDays _ hs none r.pool [] r.legs hrun x hx
+    unfold C02.setOffsets at hd
+    simp only [List.mem_map] at hd
+    obtain ⟨d0, hd0, rfl⟩ := hd
+    exact ⟨d0, hd0, by have : bnbWindowDays = 30 := by decide
+                       rw [this] at hwin; exact hwin⟩
 
 end Cgt.C01
